@@ -656,7 +656,9 @@ func flatCatalogues(c *Ctx) (singles, pairs []gen.Feature) {
 	}
 	// quick singles: every holder x every content (3 names), the whole alphabet on 3 holders, all other features
 	// (pairs of names equal up to a special character: on the 3 sweep holders; in pairs with other features: '#' and '/' only)
-	nearNames := func(ct gen.Content) bool { return ct.Class == "ref-aux-names" || ct.Class == "ref-local-names" }
+	nearNames := func(ct gen.Content) bool {
+		return ct.Class == "ref-aux-names" || ct.Class == "ref-local-names" || ct.Class == "inline-names"
+	}
 	singles = gen.Catalogue(three, nil, func(ct gen.Content) bool { return !nearNames(ct) })
 	singles = append(singles, gen.Catalogue(three, func(hn string) bool { return sweepHolders[hn] }, nearNames)...)
 	rest := gen.Sigma[:0:0]
@@ -672,7 +674,7 @@ func flatCatalogues(c *Ctx) (singles, pairs []gen.Feature) {
 	repContent := map[string]bool{"object": true, "richObject": true, "refAuxRich": true, "refLocal[pet owner]": true, "refAux[pet]": true, "selfRecursiveAux": true, "arrayOfItself": true,
 		"pointer[properties,complex]": true, "pointer[items,simple]": true, "pointer[properties,refAuxCollide]": true, "pointerNestedInTarget": true,
 		"collidingImport[sameName]": true, "collidingImport[sameNameSimple]": true, "collidingImport[twoAtOnce]": true, "twoImportsCaseDifferent": true,
-		"selfRecursiveAuxColliding[simple]": true, "auxDiamondColliding[recursive]": true, "auxDiamondAcrossFiles": true, "refAuxSameNameDifferentDirs": true, "refViaPrefixNamed[local]": true, "selfRecursiveAuxFileNamedLikeRoot": true}
+		"selfRecursiveAuxColliding[simple]": true, "auxDiamondColliding[recursive]": true, "auxDiamondAcrossFiles": true, "refAuxSameNameDifferentDirs": true, "refViaPrefixNamed[local]": true, "selfRecursiveAuxFileNamedLikeRoot": true, "collidingImport[threeAtOnce,complex]": true, "keywordNamedProperty[definitions]": true}
 	pairs = gen.Catalogue(three, func(hn string) bool { return rep[hn] }, func(ct gen.Content) bool { return repContent[ct.Label] })
 	repOther := map[string]bool{"twoPathsManglingAlike": true, "pathPrefixOfAnother": true, "twoCollidingImportsSameGeneratedName": true, "twoInlineSameGeneratedName": true, "paramRef": true, "responseRef": true, "pathItemRef": true, "pathItemRefWithAuxSchema": true, "paramRefWithAuxSchema": true, "twoDefsCaseDifferentWithInline": true, "unusedAliasOfCollidingImport": true, "secondPath": true, "unusedDefinition[a/b]": true, "unusedChain3": true,
 		"preNamed[thingOAIGen]": true, "preNamed[getPOKBody]": true}
@@ -684,14 +686,23 @@ func flatCatalogues(c *Ctx) (singles, pairs []gen.Feature) {
 	return
 }
 
-func runFlatProp(c *Ctx, fp *flatProp) {
-	if fp.ID == "C10" {
-		// every query is also issued before Flatten: an answer memoised by the analyzer must not survive the rewrite
-		h.PreFlatten = func(an *analysis.Spec) {
-			defer func() { _ = recover() }()
-			getterSnapshot(an)
+// setPreFlatten: a caller may have queried the analyzer before handing it to Flatten; an answer memoised by the analyzer
+// must neither survive the rewrite (C10) nor feed a later phase of Flatten with stale data (all other properties).
+// C10 issues every query before every Flatten; the other properties do so in the executions run under the descending
+// map-order policy and not in those run under the ascending one, so that both call histories are explored.
+func setPreFlatten(fp *flatProp) {
+	always := fp.ID == "C10"
+	h.PreFlatten = func(an *analysis.Spec) {
+		if !always && mcrt.Cur.Policy != mcrt.Desc {
+			return
 		}
+		defer func() { _ = recover() }()
+		getterSnapshot(an)
 	}
+}
+
+func runFlatProp(c *Ctx, fp *flatProp) {
+	setPreFlatten(fp)
 	singles, pairs := flatCatalogues(c)
 	c.Bounds["catalogue_singles"] = len(singles)
 	c.Bounds["catalogue_pairs"] = len(pairs)
@@ -842,12 +853,7 @@ func flatReplay(fp *flatProp) func(v *Violation) string {
 		if !in.prepare() {
 			return ""
 		}
-		if fp.ID == "C10" {
-			h.PreFlatten = func(an *analysis.Spec) {
-				defer func() { _ = recover() }()
-				getterSnapshot(an)
-			}
-		}
+		setPreFlatten(fp)
 		if v.Generator == "flatten-chain" {
 			ob2, _ := json.Marshal(v.Env["opts2"])
 			var o2 h.Opts
